@@ -203,7 +203,11 @@ func vpH_c03_plugins() {
 	case 3:
 		cfg = vpMapOf("b", 1, "a", 2) // key order inside configs is not significant
 	}
-	switch vpInt(0, 2) {
+	form := vpInt(0, 2)
+	if form < 2 && vpBool() {
+		src2 = src1 // the sequence forms may name the same plugin twice (e.g. two logins); both stay, in place
+	}
+	switch form {
 	case 0: // list of strings and one-key maps
 		step.Set("plugins", []any{src1, vpMapOf(src2, cfg)})
 	case 1: // list of one-key maps
